@@ -83,14 +83,77 @@ def verify_one(job):
 
 
 def verify_many(quals, mods, opts=None, procs=None):
+    """one forked process per function, at most `procs` at a time; results
+    come back as JSON over a pipe.  A worker that dies or exceeds the
+    per-function limit yields an error result instead of blocking the run
+    (multiprocessing.Pool hangs forever when a worker is lost)."""
+    import json
+    import select
     opts = opts or {}
     jobs = [(q, mods, opts) for q in quals]
-    procs = procs or min(len(jobs), int(os.environ.get('PYVC_PROCS', '16')))
-    if procs <= 1 or len(jobs) == 1:
+    procs = procs or int(os.environ.get('PYVC_PROCS', '16'))
+    limit = int(os.environ.get('PYVC_FUNC_LIMIT_S', '2400'))
+    if procs <= 1:
         return [verify_one(j) for j in jobs]
-    ctx = mp.get_context('fork')
-    with ctx.Pool(procs) as pool:
-        return pool.map(verify_one, jobs, chunksize=1)
+    pending = list(enumerate(jobs))
+    running = {}          # fd -> [pid, index, job, start, buffer]
+    results = [None] * len(jobs)
+
+    def lost(job, why, t0):
+        return {'function': job[0], 'obligations': [], 'error': why,
+                'unsupported': None, 'inlined': [], 'assumed': [],
+                'used_assumptions': [], 'wall': time.time() - t0}
+    while pending or running:
+        while pending and len(running) < procs:
+            idx, job = pending.pop(0)
+            r, w = os.pipe()
+            sys.stdout.flush()
+            pid = os.fork()
+            if pid == 0:
+                os.close(r)
+                try:
+                    out = verify_one(job)
+                    data = json.dumps(out, default=str).encode()
+                except BaseException as e:      # noqa
+                    data = json.dumps(lost(job, 'worker exception ' +
+                                           repr(e), time.time())).encode()
+                try:
+                    off = 0
+                    while off < len(data):
+                        off += os.write(w, data[off:off + 65536])
+                finally:
+                    os._exit(0)
+            os.close(w)
+            running[r] = [pid, idx, job, time.time(), b'']
+        rd, _, _ = select.select(list(running), [], [], 1.0)
+        for fd in rd:
+            chunk = os.read(fd, 1 << 20)
+            if chunk:
+                running[fd][4] += chunk
+                continue
+            pid, idx, job, t0, buf = running.pop(fd)
+            os.close(fd)
+            try:
+                os.waitpid(pid, 0)
+            except OSError:
+                pass
+            try:
+                results[idx] = json.loads(buf.decode())
+            except ValueError:
+                results[idx] = lost(job, 'worker died without a result', t0)
+        now = time.time()
+        for fd in list(running):
+            pid, idx, job, t0, buf = running[fd]
+            if now - t0 > limit:
+                try:
+                    os.kill(pid, 9)
+                    os.waitpid(pid, 0)
+                except OSError:
+                    pass
+                os.close(fd)
+                del running[fd]
+                results[idx] = lost(job, 'worker exceeded %d s' % limit, t0)
+    return results
 
 
 if __name__ == '__main__':
